@@ -218,6 +218,10 @@ func GenConfig(prop, tier string, seed uint64) Config {
 		c.NSeries = r.Range(3, 8)
 		if r.Chance(0.3) {
 			c.Crash, c.ImgCap, c.TornMode, c.Queue = true, 6, 0, 0
+		} else if r.Chance(0.35) {
+			// lost log tail: restarts on copies whose newest WAL / WBL segment is cut, then a new series (damage.go, refOnly)
+			c.Damage, c.Queue, c.WALSegKB = true, 0, 32
+			c.OOOWindow = 30 * c.R
 		}
 	case "C16":
 		c.RichLabels = true
@@ -232,6 +236,12 @@ func GenConfig(prop, tier string, seed uint64) Config {
 		c.RichLabels = true
 		c.NSeries = r.Range(4, 12)
 		c.Sharding = true
+	case "C24":
+		if r.Chance(0.15) {
+			// a block whose "id" label has one more value than a multiple of the postings offset table's sampling rate
+			c.RichLabels = true
+			c.NSeries = []int{33, 65}[r.Intn(2)]
+		}
 	case "C53":
 		c.ROCheck = true
 	case "C23":
@@ -302,6 +312,17 @@ func Generate(prop, tier string, seed uint64) *Plan {
 	}
 	p := &Plan{Cfg: cfg}
 	openSlots := 0
+	if (prop == "C16" || prop == "C24") && cfg.RichLabels && (cfg.NSeries == 33 || cfg.NSeries == 65) {
+		// every series gets a sample in one block range and the range is compacted: a block whose "id" label has one
+		// more value than a multiple of the postings offset table's sampling rate
+		p.Ops = append(p.Ops, Op{K: "app", Slot: 0})
+		for i := 0; i < cfg.NSeries; i++ {
+			p.Ops = append(p.Ops, Op{K: "add", Slot: 0, S: i, TB: "now", TO: 0, VK: genKind(r, prop), HM: r.Intn(histgen.NModes), HS: r.Uint64() >> 1})
+		}
+		p.Ops = append(p.Ops, Op{K: "commit", Slot: 0}, Op{K: "app", Slot: 0},
+			Op{K: "add", Slot: 0, S: r.Intn(cfg.NSeries), TB: "now", TO: int64(r.Range(30, 60))}, Op{K: "commit", Slot: 0}, Op{K: "compact"})
+		nops += len(p.Ops)
+	}
 	for len(p.Ops) < nops {
 		k := opNames[r.Pick(w.list())]
 		switch k {
@@ -354,6 +375,22 @@ func Generate(prop, tier string, seed uint64) *Plan {
 		default:
 			p.Ops = append(p.Ops, Op{K: k})
 		}
+	}
+	if prop == "C22" && cfg.Damage && cfg.NSeries > 2 && r.Chance(0.6) {
+		// the newest series is created in the newest WAL segment, gets out-of-order samples that are m-mapped and compacted
+		// (which truncates the out-of-order WAL while the head chunk file stays), then the database is shut down: the
+		// damage sweep cuts that segment, creates a new series on the copy and restarts it
+		last := cfg.NSeries - 1
+		for i := range p.Ops {
+			if p.Ops[i].K == "add" && p.Ops[i].S == last {
+				p.Ops[i].S = r.Intn(last)
+			}
+		}
+		p.Ops = append(p.Ops, Op{K: "restart"}, Op{K: "app", Slot: 0}, Op{K: "add", Slot: 0, S: last, TB: "now", TO: 1}, Op{K: "commit", Slot: 0}, Op{K: "app", Slot: 0})
+		for i, n := 0, r.Range(1, 4); i < n; i++ {
+			p.Ops = append(p.Ops, Op{K: "add", Slot: 0, S: last, TB: "hmax", TO: -int64(r.Range(2, 30))})
+		}
+		p.Ops = append(p.Ops, Op{K: "commit", Slot: 0}, Op{K: "mmap"}, Op{K: "compactooo"}, Op{K: "restart"})
 	}
 	return p
 }
